@@ -112,6 +112,22 @@ def Item.msgs (t : Int) : Item → List Stamped
   | .sysex body last =>
     bodyMsgs t body ++ (gapMsgs (t + bodyTime body) last ++ [(0xF0 :: (bodyData body ++ [0xF7]), t)])
 
+/-- the message an item stands for (`none`: a tick is not a message) -/
+def Item.message : Item → Option Bytes
+  | .rt b => some [b]
+  | .tick _ => none
+  | .chan st _ body => some (st :: bodyData body)
+  | .sysc st body => some (st :: bodyData body)
+  | .sysex body _ => some (0xF0 :: (bodyData body ++ [0xF7]))
+
+/-- the real-time bytes that sit inside an item (in its gaps), stamped; `t` = clock at the start of the item -/
+def Item.inner (t : Int) : Item → List Stamped
+  | .rt _ => []
+  | .tick _ => []
+  | .chan _ _ body => bodyMsgs t body
+  | .sysc _ body => bodyMsgs t body
+  | .sysex body last => bodyMsgs t body ++ gapMsgs (t + bodyTime body) last
+
 def expectedFrom (t : Int) : List Item → List Stamped
   | [] => []
   | it :: r => it.msgs t ++ expectedFrom (t + it.time) r
